@@ -22,7 +22,9 @@ RULE = ("Hypothesis-generated scenarios: 1-3 chromosomes, 1-8 groups whose names
 ASSUMPTIONS = ["group of a read per docs/cmd.md; a read without tag/delimiter/table row belongs to NA",
                "a feature zeroed as unconfirmed is zeroed in all groups (whole-feature rule of C02)"]
 
-GROUP_POOL = ["b", "a", "zeta", "Alpha", "10", "9", "g_1", "NEU", "ctrl", "B2", "x"]
+GROUP_POOL = ["b", "a", "zeta", "Alpha", "10", "9", "g_1", "NEU", "ctrl", "B2", "x",
+              # names that contain words of the table headers
+              "count_A", "discount", "TPM1"]
 
 
 @st.composite
@@ -104,7 +106,9 @@ def scenarios(draw):
         sc["opts"] += ["--counts_format", fmt]
     sc["fmt"] = fmt or "both"
     sc["mode"], sc["delim"], sc["tag"], sc["table"], sc["truth"] = mode, delim, tag, table, truth
-    sc["table_form"] = {"gz": src.bool(0.3), "custom": src.bool(0.4)} if mode == "file" else None
+    sc["table_form"] = {"gz": src.bool(0.3), "custom": src.bool(0.4),
+                        # file:<table>:<read column> - the other two fields keep their defaults (group column 1, tab)
+                        "read_col_only": src.bool(0.25)} if mode == "file" else None
     sc["groups"] = groups
     sc["tq"], sc["gq"] = tq, gq
     return sc
@@ -145,11 +149,13 @@ def evaluate(case, ctx):
         with op as f:
             f.write("# read groups\n")
             for n, g in sc["table"].items():
-                if tf["custom"]:
+                if tf.get("read_col_only"):
+                    f.write("x\t%s\t%s\n" % (g, n))
+                elif tf["custom"]:
                     f.write("x,%s,%s\n" % (g, n))
                 else:
                     f.write("%s\t%s\n" % (n, g))
-        rg = "file:" + tp + (":2:1:," if tf["custom"] else "")
+        rg = "file:" + tp + (":2" if tf.get("read_col_only") else ":2:1:," if tf["custom"] else "")
     res = pipeline.run_case(sc, ctx, extra=["--read_group", rg], d=d, paths=paths)
     try:
         if res.code != 0:
@@ -250,6 +256,9 @@ def evaluate(case, ctx):
             tpmp = res.path("%s_grouped_tpm.tsv" % level, prefix=sc.get("prefix", "OUT"))
             if tpmp and cells_m is not None and mp:
                 g2, tm = parse.counts_matrix(tpmp)
+                if g2 is not None and groups and g2 != groups:
+                    ctx.violation("C09:grouped-tpm-header-differs-from-the-count-table",
+                                  {"level": level, "counts": groups, "tpm": g2}, case)
                 if g2 is not None and groups and g2 == groups:
                     for j, g in enumerate(groups):
                         col = sum(cells_m.get((f, g), 0.0) for f in mat)
